@@ -14,6 +14,7 @@
   the re-add oracle on the real output and by model = code.
 -/
 import GoblVerif.Spec.C03
+import GoblVerif.Generated.CalcFacts
 import GoblVerif.Proofs.CalcCurrency
 import GoblVerif.Proofs.CalcTax
 
@@ -184,5 +185,65 @@ example :
                       breakdown := [], taxes := [] }
     (calcLine exactOps "EUR" 2 [] .currency l).toOption.map (fun l' => (l'.sum, l'.total)) =
       some (some ⟨3002, 2⟩, some ⟨2802, 2⟩) := by decide
+
+/-! ## pinned source shapes (regenerated facts; tools/pin_calc_expect.py) -/
+
+namespace ExpectCalc
+open GoblVerif.Generated.Calc
+
+theorem calls_calculate_as_modelled : calls_calculate =
+    ["RegimeDef", "IsZero", "getIssueDate", "setIssueDate", "TodayIn", "TimeLocation", "getValueDate", "getIssueDate", "getCurrency", "Def", "getCurrency", "New", "setCurrency", "getCurrency", "getTotals", "new", "Zero", "Def", "reset", "getTax", "GetRoundingRule", "HasTags", "applyCustomerRates", "calculateComplements", "getComplements", "calculateOrgDocumentRefs", "getPreceding", "calculateLines", "getLines", "getExchangeRates", "calculateLineSum", "getLines", "calculateDiscounts", "getDiscounts", "calculateDiscountSum", "getDiscounts", "Subtract", "calculateCharges", "getCharges", "calculateChargeSum", "getCharges", "Add", "make", "getLines", "append", "getDiscounts", "append", "getCharges", "append", "len", "setTotals", "new", "getCurrency", "GetCountry", "GetTags", "Calculate", "Category", "PreciseAmount", "Subtract", "PreciseSum", "Add", "Add", "len", "getPaymentDetails", "calculateAdvances", "totalAdvance", "Subtract", "CalculateDues", "roundLines", "getLines", "roundDiscounts", "getDiscounts", "roundCharges", "getCharges", "round", "setTotals"] := by decide
+theorem conds_calculate_as_modelled : conds_calculate =
+    ["doc.getIssueDate().IsZero()", "date == nil", "doc.getCurrency() == currency.CodeEmpty || doc.getCurrency().Def() == nil", "r == nil", "t == nil", "tx := doc.getTax(); tx != nil", "tx.PricesInclude != \"\"", "tx.Rounding != \"\"", "rr == \"\"", "doc.HasTags(tax.TagCustomerRates)", "err := calculateComplements(doc.getComplements()); err != nil", "err := calculateLines(doc.getLines(), cur, doc.getExchangeRates(), rr); err != nil", "discounts := calculateDiscountSum(doc.getDiscounts(), cur); discounts != nil", "charges := calculateChargeSum(doc.getCharges(), cur); charges != nil", "l.Total != nil", "len(tls) == 0", "err := tc.Calculate(t.Taxes); err != nil", "ct != nil", "t.Rounding != nil", "len(t.Taxes.Categories) == 0", "pd := doc.getPaymentDetails(); pd != nil", "t.Advances = pd.totalAdvance(zero); t.Advances != nil"] := by decide
+theorem calls_calculateDiscounts_as_modelled : calls_calculateDiscounts =
+    ["Zero", "Def", "len", "IsZero", "RescaleUp", "Exp", "ApplyRoundingRule", "Of", "ApplyRoundingRule"] := by decide
+theorem conds_calculateDiscounts_as_modelled : conds_calculateDiscounts =
+    ["len(lines) == 0", "l.Percent != nil && !l.Percent.IsZero()", "l.Base != nil"] := by decide
+theorem calls_calculateCharges_as_modelled : calls_calculateCharges =
+    ["Zero", "Def", "len", "IsZero", "RescaleUp", "Exp", "ApplyRoundingRule", "Of", "ApplyRoundingRule"] := by decide
+theorem conds_calculateCharges_as_modelled : conds_calculateCharges =
+    ["len(lines) == 0", "l.Percent != nil && !l.Percent.IsZero()", "l.Base != nil"] := by decide
+theorem calls_calculateDiscountSum_as_modelled : calls_calculateDiscountSum =
+    ["len", "Zero", "Def", "MatchPrecision", "Add"] := by decide
+theorem conds_calculateDiscountSum_as_modelled : conds_calculateDiscountSum =
+    ["len(discounts) == 0"] := by decide
+theorem calls_calculateChargeSum_as_modelled : calls_calculateChargeSum =
+    ["len", "Zero", "Def", "MatchPrecision", "Add"] := by decide
+theorem conds_calculateChargeSum_as_modelled : conds_calculateChargeSum =
+    ["len(charges) == 0"] := by decide
+theorem calls_PaymentDetails_calculateAdvances_as_modelled : calls_PaymentDetails_calculateAdvances =
+    ["CalculateFrom", "MatchPrecision"] := by decide
+theorem conds_PaymentDetails_calculateAdvances_as_modelled : conds_PaymentDetails_calculateAdvances =
+    [] := by decide
+theorem calls_PaymentDetails_totalAdvance_as_modelled : calls_PaymentDetails_totalAdvance =
+    ["len", "MatchPrecision", "Add", "Rescale", "Exp"] := by decide
+theorem conds_PaymentDetails_totalAdvance_as_modelled : conds_PaymentDetails_totalAdvance =
+    ["p == nil || len(p.Advances) == 0"] := by decide
+theorem calls_Terms_CalculateDues_as_modelled : calls_Terms_CalculateDues =
+    ["IsZero", "Of", "Rescale", "Exp"] := by decide
+theorem conds_Terms_CalculateDues_as_modelled : conds_Terms_CalculateDues =
+    ["t == nil", "dd.Percent != nil && !dd.Percent.IsZero()"] := by decide
+theorem calls_Advance_CalculateFrom_as_modelled : calls_Advance_CalculateFrom =
+    ["Of"] := by decide
+theorem conds_Advance_CalculateFrom_as_modelled : conds_Advance_CalculateFrom =
+    ["a.Percent != nil"] := by decide
+theorem calls_CategoryTotal_PreciseAmount_as_modelled : calls_CategoryTotal_PreciseAmount =
+    ["IsZero"] := by decide
+theorem conds_CategoryTotal_PreciseAmount_as_modelled : conds_CategoryTotal_PreciseAmount =
+    ["!ct.amount.IsZero()"] := by decide
+theorem calls_Total_PreciseSum_as_modelled : calls_Total_PreciseSum =
+    ["IsZero"] := by decide
+theorem conds_Total_PreciseSum_as_modelled : conds_Total_PreciseSum =
+    ["!t.sum.IsZero()"] := by decide
+theorem calls_Total_round_as_modelled : calls_Total_round =
+    ["Rescale", "Exp", "Rescale", "Exp", "Rescale", "Exp", "Rescale", "Exp", "Rescale", "Exp", "Rescale", "Exp"] := by decide
+theorem conds_Total_round_as_modelled : conds_Total_round =
+    ["rt.Surcharge != nil", "ct.Surcharge != nil"] := by decide
+theorem calls_Totals_round_as_modelled : calls_Totals_round =
+    ["Exp", "Rescale", "Rescale", "Rescale", "Rescale", "Rescale", "Rescale", "Rescale", "Rescale", "Rescale", "Rescale"] := by decide
+theorem conds_Totals_round_as_modelled : conds_Totals_round =
+    ["t.Discount != nil", "t.Charge != nil", "t.TaxIncluded != nil", "t.Advances != nil", "t.Due != nil"] := by decide
+
+end ExpectCalc
 
 end GoblVerif.Props.C03
